@@ -139,7 +139,12 @@ pub enum Event {
     Push { mlen: usize, ad: Option<usize>, tag: u8, fill: u64 },
     RekeyBoth,
     DeliverNext,
-    DeliverWrong { kind: Wrong },
+    DeliverWrong {
+        kind: Wrong,
+        /// classic pull only: the caller's message buffer is this many bytes longer than needed
+        #[serde(default)]
+        extra: usize,
+    },
     Drain,
 }
 
@@ -285,17 +290,17 @@ impl StreamWorld {
     }
 
     fn do_pull(rx: &mut Rx, flavour: RxFlavour, ct: &[u8], ad: Option<&[u8]>) -> PullObs {
-        Self::do_pull_short(rx, flavour, ct, ad, 0)
+        Self::do_pull_short(rx, flavour, ct, ad, 0, 0)
     }
 
-    fn do_pull_short(rx: &mut Rx, flavour: RxFlavour, ct: &[u8], ad: Option<&[u8]>, shortfall: usize) -> PullObs {
+    fn do_pull_short(rx: &mut Rx, flavour: RxFlavour, ct: &[u8], ad: Option<&[u8]>, shortfall: usize, extra: usize) -> PullObs {
         let mut c17 = None;
         let mut err_text: Option<String> = None;
         crate::kit::alloc::arm();
         let r = guarded(|| -> Option<(Vec<u8>, u8)> {
             match (rx, flavour) {
                 (Rx::Classic(s), _) => {
-                    let mut m = vec![SENTINEL; ct.len().saturating_sub(17).saturating_sub(shortfall)];
+                    let mut m = vec![SENTINEL; ct.len().saturating_sub(17).saturating_sub(shortfall) + extra];
                     let before = m.clone();
                     let mut tag = TAG_SENTINEL;
                     let r = ss::crypto_secretstream_xchacha20poly1305_pull(s, &mut m, &mut tag, ct, ad);
@@ -679,7 +684,8 @@ impl World for StreamWorld {
                 }
                 _ => Wrong::Garbage { len: rng.usize_below(2 * 17 + 65), kind: rng.below(9) as u8 },
             };
-            return Some(Event::DeliverWrong { kind });
+            let extra = if matches!(self.rx, Rx::Classic(_)) && !matches!(kind, Wrong::AdPresence | Wrong::ShortBuffer { .. } | Wrong::ShortForged { .. } | Wrong::HeaderFlip { .. } | Wrong::KeyFlip { .. }) && rng.chance(1, 5) { 1 + rng.usize_below(40) } else { 0 };
+            return Some(Event::DeliverWrong { kind, extra });
         }
         self.last_was_special = false;
         Some(Event::DeliverNext)
@@ -772,7 +778,7 @@ impl World for StreamWorld {
                 out.shape("N");
                 self.deliver_next(out, false);
             }
-            Event::DeliverWrong { kind } => {
+            Event::DeliverWrong { kind, extra } => {
                 self.consume_markers(out);
                 let pending = self.pending_packets();
                 if pending.is_empty() {
@@ -921,6 +927,9 @@ impl World for StreamWorld {
                     return; // inapplicable in this state: no-op
                 }
                 out.fault(kind.kind());
+                if *extra > 0 && shortfall == 0 {
+                    out.fault("oversize.buffer");
+                }
                 out.shape(&format!("W{}", kind.kind()));
                 let eff = |a: &Option<Vec<u8>>| a.clone().unwrap_or_default();
                 let identical = fresh_rx.is_none() && shortfall == 0 && ct == next.ct && eff(&ad) == eff(&next.ad);
@@ -929,7 +938,7 @@ impl World for StreamWorld {
                 let ref_before = self.ref_rx;
                 let obs = match fresh_rx.as_mut() {
                     Some(f) => Self::do_pull(f, flavour, &ct, ad.as_deref()),
-                    None => Self::do_pull_short(&mut self.rx, flavour, &ct, ad.as_deref(), shortfall),
+                    None => Self::do_pull_short(&mut self.rx, flavour, &ct, ad.as_deref(), shortfall, if shortfall == 0 { *extra } else { 0 }),
                 };
                 out.op();
                 self.judge_common(&obs, ct.len(), kind.kind(), out);
@@ -962,7 +971,7 @@ impl World for StreamWorld {
                         self.cursor += 1;
                         self.delivered.push(pending[0]);
                         self.check_rx_lockstep(out, "pull");
-                    } else {
+                    } else if *extra == 0 {
                         out.violate("C03", "c03.accept_next", site(&[("flavour", flavour.name()), ("tag", tag_class(next.tag)), ("preceded_by", "none")]), format!("a delivery byte-identical to the genuine next packet (kind {}) was not accepted", kind.kind()));
                     }
                     return;
@@ -1045,8 +1054,9 @@ impl World for StreamWorld {
                 }
                 v
             }
-            Event::DeliverWrong { kind } => {
-                let mk = |k: Wrong| Event::DeliverWrong { kind: k };
+            Event::DeliverWrong { kind, extra } => {
+                let extra = *extra;
+                let mk = |k: Wrong| Event::DeliverWrong { kind: k, extra };
                 match kind {
                     Wrong::BitFlip { at, bit } if *bit > 0 => vec![mk(Wrong::BitFlip { at: *at, bit: 0 })],
                     Wrong::AdFlip { bit } if *bit > 0 => vec![mk(Wrong::AdFlip { bit: 0 })],
@@ -1067,7 +1077,7 @@ impl World for StreamWorld {
 
     fn crash_site(cfg: &Config, ev: &Event) -> Site {
         let fk = match ev {
-            Event::DeliverWrong { kind } => kind.kind(),
+            Event::DeliverWrong { kind, .. } => kind.kind(),
             Event::DeliverNext | Event::Drain => "none",
             _ => "push",
         };
